@@ -491,9 +491,9 @@ pub fn run(cfg: &Cfg) -> i32 {
             engine::run_one(ctx, |ctx| check_text(ctx, "QQQQQQQk/QQQQQQQ1/QQQQQQQ1/QQQQQQQ1/QQQQQQQ1/QQQQQQQ1/QQQQQQQ1/KQQQQQQ1 w - - 0 1", None))?;
         }
         let tape = proptest::collection::vec(any::<u16>(), 420);
-        engine::pbt(ctx, seedf(1), cfg.per_shard(300_000, 6_000_000), &tape, |ctx, tp: &Vec<u16>| check_tape(ctx, tp))?;
+        engine::pbt(ctx, seedf(1), cfg.per_shard(2_000_000, 30_000_000), &tape, |ctx, tp: &Vec<u16>| check_tape(ctx, tp))?;
         let strat = text_strategy();
-        engine::pbt(ctx, seedf(2), cfg.per_shard(300_000, 6_000_000), &strat, |ctx, t: &String| check_text(ctx, t, None))?;
+        engine::pbt(ctx, seedf(2), cfg.per_shard(2_000_000, 30_000_000), &strat, |ctx, t: &String| check_text(ctx, t, None))?;
         Ok(())
     });
     engine::finish(
